@@ -118,7 +118,7 @@ struct OneShot {
                         st->avail_out = (uint32_t) ao;
                         st->flush = (uint16_t) flush;
                         // with NO_FLUSH the one-shot call ends the stream whatever end_of_stream says on entry (ordinary use leaves it 0)
-                        st->end_of_stream = (eos && !(flush == NO_FLUSH && plan.geti("eos_unset"))) ? 1 : 0;
+                        st->end_of_stream = (eos && !(flush == NO_FLUSH && plan.geti("eos_unset"))) ? (uint16_t) (plan.geti("eosval", 1) ? plan.geti("eosval", 1) : 1) : 0;
                         // ---- invalid-parameter injection (documented refusals)
                         bool injected = false;
                         if (inv_kind && last) {
@@ -297,7 +297,7 @@ static Json gen_oneshot(Rng &r0, const std::string &focus, int tier)
                 for (int i = 0; i < k; i++)
                         ch.push((uint32_t) (r.chance(1, 6) ? 0 : r.logsize((uint64_t) data.geti("n") + 1)));
         }
-        p.set("chain", ch).set("last_flush", (int) (chain ? r.below(2) : r.chance(1, 6))).set("eos_unset", (int) r.below(2));
+        p.set("chain", ch).set("last_flush", (int) (chain ? r.below(2) : r.chance(1, 6))).set("eos_unset", (int) r.below(2)).set("eosval", r.chance(1, 6) ? (int) (r.chance(1, 2) ? 2 : 0x100 << r.below(8)) : 1);
         int64_t delta;
         uint64_t c = r.below(10);
         uint32_t bound = deflate_bound((uint32_t) data.geti("n"), wrap);
